@@ -4,7 +4,8 @@
      - in fit / partial_fit by the number of decisions (more than one: a column),
      - in predict / predict_expectations by the number of features the bandit remembers: the size of the first arm's
        coefficient vector (linear policy alone), the width of the stored contexts (neighbourhood policies, Clusters), the
-       width the fitted trees were trained on (TreeBandit); a context-free bandit has none and the call raises.
+       width the fitted tree of a CURRENT arm was trained on (TreeBandit; none of the current arms may have one); a context-free
+       bandit has none and the call raises.
    [sstep] is the facade with such calls; everything else is [step] of Mab.v on the converted contexts. *)
 From Coq Require Import ZArith List Bool.
 From MW Require Import Num Assoc Rng CF Warm Matrix Lin Nbr Clu Tree Mab.
@@ -26,7 +27,8 @@ Definition mab_num_features (m : @mab R A G) : option nat :=
               end
   | INbr s => Some (ncols (n_cx s))                          (* _imp.contexts.shape[1] *)
   | IClu s => Some (ncols (k_cx s))
-  | ITree s => t_nf s                                        (* a fitted tree's number of features; none fitted: the call raises *)
+  | ITree s =>                                               (* a fitted tree of one of the CURRENT arms; none: the call raises *)
+      if existsb (fun a => match aget_d aeqb [] (t_leaves s) a with [] => false | _ => true end) (t_arms s) then t_nf s else None
   end.
 
 Inductive sop : Type :=
